@@ -42,6 +42,8 @@ enum Ins {
     Lw(usize, i64, usize),
     Sw(usize, i64, usize),
     Br(Cc, usize, usize, String),
+    /// and / or / xor / sll / srl / sra with register or immediate second operand
+    Alu(u8, usize, usize, RI),
     Marker(Marker),
 }
 
@@ -120,6 +122,24 @@ pub fn parse(text: &str) -> Result<Program, Fault> {
             "BLE" => Ins::Br(Cc::Le, r(1)?, r(2)?, lab(3)?),
             "BGT" => Ins::Br(Cc::Gt, r(1)?, r(2)?, lab(3)?),
             "BGE" => Ins::Br(Cc::Ge, r(1)?, r(2)?, lab(3)?),
+            // common base instructions and pseudo-instructions the backend does not use (yet)
+            "ADDI" => Ins::Add(r(1)?, r(2)?, RI::I(imm(3)?)),
+            "AND" | "OR" | "XOR" | "SLL" | "SRL" | "SRA" => Ins::Alu(["AND", "OR", "XOR", "SLL", "SRL", "SRA"].iter().position(|m| *m == t[0]).unwrap() as u8, r(1)?, r(2)?, RI::R(r(3)?)),
+            "ANDI" | "ORI" | "XORI" | "SLLI" | "SRLI" | "SRAI" => {
+                Ins::Alu(["ANDI", "ORI", "XORI", "SLLI", "SRLI", "SRAI"].iter().position(|m| *m == t[0]).unwrap() as u8, r(1)?, r(2)?, RI::I(imm(3)?))
+            }
+            "NEG" => Ins::Sub(r(1)?, 0, r(2)?),
+            "BEQZ" => Ins::Br(Cc::Eq, r(1)?, 0, lab(2)?),
+            "BNEZ" => Ins::Br(Cc::Ne, r(1)?, 0, lab(2)?),
+            "BLTZ" => Ins::Br(Cc::Lt, r(1)?, 0, lab(2)?),
+            "BGEZ" => Ins::Br(Cc::Ge, r(1)?, 0, lab(2)?),
+            "BLEZ" => Ins::Br(Cc::Le, r(1)?, 0, lab(2)?),
+            "BGTZ" => Ins::Br(Cc::Gt, r(1)?, 0, lab(2)?),
+            "J" => Ins::Jal(0, lab(1)?),
+            "JR" => Ins::Jalr(0, r(1)?, 0),
+            "NOP" => Ins::Add(0, 0, RI::I(0)),
+            "LD" => Ins::Lw(r(1)?, imm(2)?, r(3)?),
+            "SD" => Ins::Sw(r(1)?, imm(2)?, r(3)?),
             _ => return Err(bad()),
         };
         ins.push(i);
@@ -333,6 +353,22 @@ impl<'p> Emu<'p> {
                         let a = self.need(base, "SW")?.wrapping_add(off as u64);
                         let w = self.get(s);
                         self.mem.store(a, w, sp, "SW")?;
+                    }
+                    Ins::Alu(k, d, a, b) => {
+                        let x = self.need(a, "ALU")?;
+                        let y = match b {
+                            RI::R(r) => self.need(r, "ALU")?,
+                            RI::I(i) => i as u64,
+                        };
+                        let v = match k {
+                            0 => x & y,
+                            1 => x | y,
+                            2 => x ^ y,
+                            3 => x << (y & 63),
+                            4 => x >> (y & 63),
+                            _ => ((x as i64) >> (y & 63)) as u64,
+                        };
+                        self.set(d, Word::Def(v));
                     }
                     Ins::Br(cc, a, b, l) => {
                         let x = self.need(a, "branch")? as i64;
